@@ -142,8 +142,12 @@ impl WriteSource for pr::ExprKind {
                 // the bounds are not operands of an enclosing binary operator
                 opt.binary_position = super::Position::Unspecified;
                 if let Some(start) = &range.start {
-                    let start = write_within(start.as_ref(), self, opt.clone())?;
-                    r += opt.consume(&start)?;
+                    let mut start_text = write_within(start.as_ref(), self, opt.clone())?;
+                    if matches!(start.kind, Param(_)) && start.alias.is_none() {
+                        // `$1..5` would be read as one parameter named `1..5`
+                        start_text = format!("({start_text})");
+                    }
+                    r += opt.consume(&start_text)?;
                 }
 
                 r += opt.consume("..")?;
